@@ -101,6 +101,12 @@ func genFlows(base, d, b int) []Flow {
 	if base == 3 {
 		n4, n6 = 2+(d+b)%2, b%2
 	}
+	if base == 4 {
+		n4, n6 = 1, 0
+		if d == 1 {
+			n4 = 16 // bulk (n4 > 10: constant dip / proto / dport / counters, see below)
+		}
+	}
 	var fl []Flow
 	for i := 0; i < n4; i++ {
 		u := uint64(i)
@@ -132,6 +138,12 @@ func blocksOfDay(base, d int) []int64 {
 	if base == 3 {
 		return []int64{300, 600, 900, 1200} // several blocks behind a damaged one (sequential reads)
 	}
+	if base == 4 {
+		if d == 1 {
+			return []int64{300, 600, 900} // three blocks of bulk flows: the columns are really stored LZ4-compressed
+		}
+		return []int64{7200}
+	}
 	switch (base + d) % 3 {
 	case 0:
 		return []int64{300, 600}
@@ -147,7 +159,7 @@ var (
 	bases  = map[string]*baseInfo{}
 )
 
-const nBases = 4
+const nBases = 5
 
 func buildBase(id int, work string) (*baseInfo, error) {
 	baseMu.Lock()
@@ -409,6 +421,46 @@ func headerInputs(work string, must bool) []Input {
 				add("meta-header-bitflip", flip(meta, pos, bit))
 			}
 		}
+	}
+	return ins
+}
+
+// encInputs: encoder-type byte of the first / middle block of a column of the bulk day of base 4, where that block AND the
+// next block of the column are stored LZ4-compressed (so the follow-up read needs a decoder from the same column handle).
+// must: 0 (deprecated type), 0x43 (single bit flip of 3), 255; !must: every other value 0..255.
+func encInputs(work string, must bool) []Input {
+	var ins []Input
+	b, err := buildBase(4, work)
+	if err != nil {
+		fatal(err)
+	}
+	tf, tl := day0-1000, day0+3*epochDay+1000
+	d := 1
+	meta := readFile(b, d, ".blockmeta")
+	n := len(b.Days[d].Blocks)
+	found := 0
+	for blk := 0; blk < n-1; blk++ {
+		for col := 0; col < 8; col++ {
+			_, raw, enc := descOf(meta, n, col, blk)
+			_, raw2, enc2 := descOf(meta, n, col, blk+1)
+			if enc != byte(encoders.EncoderTypeLZ4) || enc2 != byte(encoders.EncoderTypeLZ4) || raw == 0 || raw2 == 0 {
+				continue
+			}
+			found++
+			for v := 0; v < 256; v++ {
+				isMust := v == 0 || v == 0x43 || v == 255
+				if v == int(enc) || isMust != must {
+					continue
+				}
+				y := append([]byte(nil), meta...)
+				y[descPos(n, col, blk)+8] = byte(v)
+				ins = append(ins, Input{Base: 4, TFirst: tf, TLast: tl, Attrs: 15, Class: "meta-enc", Day: d, Block: blk,
+					Ops: []Op{wr(b, d, ".blockmeta", y)}})
+			}
+		}
+	}
+	if found < 4 {
+		fatal(fmt.Errorf("base 4: only %d (column, block) pairs are stored LZ4-compressed with an LZ4 successor", found))
 	}
 	return ins
 }
@@ -1189,11 +1241,12 @@ func getPlan(o vhlib.Opts) []Input {
 	r := vhlib.NewRand(o.Seed ^ 0xc06)
 	fixed := append(fixedInputs(o.Work), blockLevelInputs(o.Work, false)...)
 	fixed = append(fixed, headerInputs(o.Work, false)...)
+	fixed = append(fixed, encInputs(o.Work, false)...)
 	var p []Input
 	mustN := 0
 	// quick: a seed-dependent third of the fixed boundary list (all of it in thorough / search), then random mutants
 	seen := map[string]bool{}
-	for _, in := range append(headerInputs(o.Work, true), blockLevelInputs(o.Work, true)...) {
+	for _, in := range append(append(encInputs(o.Work, true), headerInputs(o.Work, true)...), blockLevelInputs(o.Work, true)...) {
 		raw, _ := json.Marshal(in)
 		if !seen[string(raw)] {
 			seen[string(raw)] = true
